@@ -110,7 +110,11 @@ Aux:
 					if len(args) <= ai {
 						ErrorPanic(s, depth, "Missing value for key :%s.", sym)
 					}
-					ss.Let(sym, args[ai])
+					// Only a &key parameter is bound, a keyword must not
+					// overwrite some other variable of the same name.
+					if lam.Doc.getKeyArg(string(sym)) != nil {
+						ss.Let(sym, args[ai])
+					}
 					ai++
 					continue
 				}
